@@ -83,6 +83,24 @@ class FailingTable(object):
             raise FailingTable.Boom('injected failure at exhaustion')
 
 
+class FlakyTable(FailingTable):
+    """Like FailingTable, but only the first `times` iterations fail (a transient read error)."""
+
+    def __init__(self, header, rows, fail_at=None, times=1):
+        FailingTable.__init__(self, header, rows, fail_at)
+        self.times = times
+
+    def _gen(self):
+        items = [self.header] + self.rows
+        failing = self.iters <= self.times
+        for pos, item in enumerate(items):
+            if failing and self.fail_at == pos:
+                raise FailingTable.Boom('injected transient failure at item %d' % pos)
+            yield item
+        if failing and self.fail_at == len(items):
+            raise FailingTable.Boom('injected transient failure at exhaustion')
+
+
 def freeze(v):
     """Canonical, hashable, type-faithful rendering of a yielded item (row containers normalised)."""
     if isinstance(v, (list, tuple)):
